@@ -13,8 +13,10 @@
  *
  * Scenario: one producer task with one output flow holding copy ORIG of type T0, and NC consumer
  * tasks.  Consumer c is fed by an output dependency of the producer with local type OT[c] in
- * {none, T0, T1, T2} and declares on its own input dependency the local type IT[c] in the same set
- * (all symbolic).  The harness drives the real functions EXACTLY as ptgpp-generated code does
+ * {none, T0, T1, T2} and declares on its own input dependency the local type IT[c] in the same set.
+ * (OT[] and the IT of all consumers but the last are chosen by one symbolic selector over an
+ * if-chain of concrete alternatives, the IT of the last consumer is a free symbol: see main().)
+ * The harness drives the real functions EXACTLY as ptgpp-generated code does
  * (generated from a JDF with three output dependencies of different [type], see FINDING.md):
  *   release_deps:  arg.output_entry = producer's repo entry; iterate_successors sets
  *                  data.data = ORIG, data.data_future = NULL ONCE per flow, then for every
@@ -145,42 +147,18 @@ static void install_class(parsec_class_t *c, parsec_construct_t *ct, parsec_dest
 
 static int kind(int ot) { return (ot == NOTYPE || ot == 0) ? 0 : ot; }       /* which copy an output type yields: 0 = the original */
 
-int main(void)
+static void scenario(int ot0, int ot1, int ot2, int it0, int it1)
 {
-    install_class(&parsec_list_item_t_class, ctor_item, dtor_none, 1);
-    install_class(&parsec_list_t_class, ctor_list, dtor_list, 1);
-    install_class(&parsec_base_future_t_class, ctor_dcf, dtor_none, 2);       /* never instantiated here */
-    install_class(&parsec_datacopy_future_t_class, ctor_dcf, dtor_dcf, 3);
-    ctx.nb_nodes = 1; ctx.my_rank = 0; ctx.flags = PARSEC_CONTEXT_FLAG_COMM_MT;
-    vp.parsec_context = &ctx; es.virtual_process = &vp;
-    parsec_ce.reshape = stub_reshape;
-    pflow.flow_index = 0; cflow.flow_index = 0;
-    ptask.taskpool = &tp;
-    ODATA.super.obj_reference_count = 1000; ODATA.super.obj_release = vp_copy_to_zero;
-    ORIG.super.super.obj_reference_count = 1000; ORIG.super.super.obj_release = vp_copy_to_zero;
-    ORIG.original = &ODATA; ORIG.dtt = TY(0); ORIG.device_index = 0;
-
+    (void)ot2; (void)it1;
     /* ---- symbolic scenario */
-    /* The types OT[] of the producer's output dependencies are ENUMERATED by spec.py (they decide
-     * which promise object lands in which repository entry; with symbolic OT every pointer of the
-     * promise graph becomes a symbolic choice and CBMC cannot resolve the callbacks: no verdict in
-     * 600 s).  spec.py only generates sequences ptgpp can emit: untyped first, equal types adjacent.
-     * The declared input type IT[c] of a consumer is SYMBOLIC unless a later consumer shares its
-     * promise (then the list of nested promises it leaves behind would again be a symbolic pointer
-     * structure) -- those are enumerated through -DITc=. */
+    /* see main(): OT[] and the input types of all consumers but the last are concrete in every
+     * alternative; the input type of the LAST consumer is symbolic */
     int OT[NC], IT[NC];
-    OT[0] = OT0; OT[1] = OT1;
+    OT[0] = ot0; OT[1] = ot1; IT[0] = it0;
 #if NC >= 3
-    OT[2] = OT2;
+    OT[2] = ot2; IT[1] = it1;
 #endif
-    for (int c = 0; c < NC; c++) IT[c] = -1;
-#ifdef IT0
-    IT[0] = IT0;
-#endif
-#ifdef IT1
-    IT[1] = IT1;
-#endif
-    for (int c = 0; c < NC; c++) if (IT[c] < 0) IT[c] = IN_RANGE(0, 3);
+    IT[NC - 1] = IN_RANGE(0, 3);
     int in_class = 0;                 /* known finding: the output dependencies of the flow do not all yield the same copy */
     for (int c = 1; c < NC; c++) if (kind(OT[c]) != kind(OT[0])) in_class = 1;
 #if defined(KF_EXCLUDE_C18_MIXED_OUTPUT_TYPES_SHARE_PROMISE)
@@ -221,6 +199,8 @@ int main(void)
         d.local.src_count = d.local.dst_count = 1; d.local.src_displ = d.local.dst_displ = 0;
         VASSERTM(d.data_future != NULL, "a consumer finds a promise where the generated code looks for it");
         if (d.data_future == NULL) VASSUME(0);
+        /* the promise outlives this lookup: its destruction (last consumer) is outside this query, see spec.py OUTSIDE */
+        PARSEC_OBJ_RETAIN(d.data_future);
         parsec_data_copy_t *chunk = NULL;
         int rc = parsec_get_copy_reshape_from_dep(&es, &tp, &ctask[c], 0, &SREPO[c], (parsec_key_t)c, &d, &chunk);
         VASSERTM(rc == PARSEC_HOOK_RETURN_RESHAPE_DONE && chunk != NULL, "in multithreaded-MPI mode the reshape completes in the calling thread");
@@ -241,11 +221,48 @@ int main(void)
         if (OT[b] == OT[c] && IT[b] == IT[c]) VASSERTM(got[b] == got[c], "consumers asking for the same shape share one converted copy (one fulfilment per shape)");
         if (got[b] != NULL && got[c] != NULL && got[b]->dtt != got[c]->dtt) VASSERTM(got[b] != got[c], "consumers of different types get different copies");
     }
-    VASSERTM(n_conv <= NC, "at most one conversion per consumer");
+    VASSERTM(n_conv <= 2 * NC && n_conv == n_new, "every conversion has its own fresh destination; at most two levels of reshape per consumer");
     VASSERTM(zero_released == 0, "no copy loses its last reference while consumers still hold it");
 
-    if (n_conv >= 2) VWITNESS("two conversions");
-    if (n_conv == 1 && got[0] == got[NC - 1] && got[0] != &ORIG) VWITNESS("one conversion shared by all consumers");
-    if (n_conv == 0) VWITNESS("no conversion needed");
+    if (got[0] != NULL && got[NC - 1] != NULL && n_conv == n_new) VWITNESS("every consumer was served");
+}
+
+int main(void)
+{
+    install_class(&parsec_list_item_t_class, ctor_item, dtor_none, 1);
+    install_class(&parsec_list_t_class, ctor_list, dtor_list, 1);
+    install_class(&parsec_base_future_t_class, ctor_dcf, dtor_none, 2);       /* never instantiated here */
+    install_class(&parsec_datacopy_future_t_class, ctor_dcf, dtor_dcf, 3);
+    ctx.nb_nodes = 1; ctx.my_rank = 0; ctx.flags = PARSEC_CONTEXT_FLAG_COMM_MT;
+    vp.parsec_context = &ctx; es.virtual_process = &vp;
+    parsec_ce.reshape = stub_reshape;
+    pflow.flow_index = 0; cflow.flow_index = 0;
+    ptask.taskpool = &tp;
+    ODATA.super.obj_reference_count = 1000; ODATA.super.obj_release = vp_copy_to_zero;
+    ORIG.super.super.obj_reference_count = 1000; ORIG.super.super.obj_release = vp_copy_to_zero;
+    ORIG.original = &ODATA; ORIG.dtt = TY(0); ORIG.device_index = 0;
+
+    /* ---- alternatives.  Which promise object lands in which repository entry is decided by the
+     * output types OT[] and, for consumers sharing a promise, by the input types of the earlier
+     * consumers.  With those symbolic every pointer of the promise graph is a symbolic choice and
+     * CBMC cannot resolve the callbacks (measured: no verdict in 600 s for 2 consumers).  They are
+     * therefore selected by ONE symbolic selector over an if-chain of concrete alternatives (the
+     * solver still decides which alternative -- and which input type of the last consumer --
+     * violates an assertion); T1 and T2 are interchangeable, so sequences are listed up to that
+     * symmetry; only sequences ptgpp can emit (untyped first, equal types adjacent). */
+    static const signed char alt[][5] = {
+#if NC == 2
+#define A4(a, b) {a, b, 0, 3, 0}, {a, b, 0, 0, 0}, {a, b, 0, 1, 0}, {a, b, 0, 2, 0}
+        A4(3, 3), A4(3, 0), A4(3, 1), A4(0, 0), A4(0, 1), A4(1, 0), A4(1, 1), A4(1, 2),
+#else
+#define A2(a, b, c, i) {a, b, c, i, 3}, {a, b, c, i, 1}
+#define A6(a, b, c) A2(a, b, c, 3), A2(a, b, c, 1), A2(a, b, c, 2)
+        A6(3, 3, 3), A6(3, 3, 1), A6(3, 0, 1), A6(3, 1, 1), A6(3, 1, 2), A6(0, 0, 1), A6(0, 1, 1), A6(1, 1, 1), A6(1, 1, 2), A6(1, 2, 0),
+#endif
+    };
+    enum { NALT = sizeof(alt) / sizeof(alt[0]) };
+    int sel = IN_RANGE(0, NALT - 1);
+    for (int a = 0; a < NALT; a++)
+        if (sel == a) { scenario(alt[a][0], alt[a][1], alt[a][2], alt[a][3], alt[a][4]); return 0; }   /* the path ends here: no state leaks into the next alternative */
     return 0;
 }
